@@ -29,13 +29,6 @@ def gen_c15_graph(rng):
             # plain strings that cannot be mistaken for another token kind, and integers (the result reader keeps no datatype)
             o = L("text %d" % k) if (o[3] or o[2] != XSD + 'integer') else ('L', str(k), XSD + 'integer', None)
         out.append((s, p, o))
-    # two integers that are different lexical forms of one number ("7" / "07") on one node and predicate: two values (plain strings that look
-    # like numbers are outside the comparable domain: the result reader keeps no datatype and infers one from the text)
-    subs0 = sorted({s for s, _, _ in out})
-    if subs0 and rng.random() < 0.35:
-        a_, b_ = rng.choice([("7", "07"), ("12", "012"), ("3", "003"), ("0", "00")])
-        for s_ in rng.sample(subs0, min(len(subs0), rng.randint(1, 3))):
-            out += [(s_, EX + 'code', ('L', a_, XSD + 'integer', None)), (s_, EX + 'code', ('L', b_, XSD + 'integer', None))]
     # IRIs of other schemes than http(s) in object (and, typed, in subject) position: a `"type": "uri"` binding is an IRI whatever its scheme
     subs = sorted({s for s, _, _ in out})
     if subs and rng.random() < 0.4:
